@@ -116,25 +116,25 @@ def run_virtual(coro_fn):
 
 
 # ----------------------------------------------------------------------------- message builders
-def mk_battery(e, now_us):
+def mk_battery(e, now_us, cid=BATTERY_ID):
     cm = _imports()["cm"]
     nan = math.nan
     errors = [cm.BatteryError(code=cm.BatteryErrorCode.UNSPECIFIED, level=cm.ErrorLevel[l], message="") for l in e["errors"]]
     return cm.BatteryData(
-        component_id=BATTERY_ID, timestamp=BASE + timedelta(microseconds=now_us - e["age"] * 1000),
+        component_id=cid, timestamp=BASE + timedelta(microseconds=now_us - e["age"] * 1000),
         soc=nan, soc_lower_bound=nan, soc_upper_bound=nan, capacity=(1000.0 if e["cap"] else nan),
         power_inclusion_lower_bound=nan, power_exclusion_lower_bound=nan, power_inclusion_upper_bound=nan,
         power_exclusion_upper_bound=nan, temperature=nan, relay_state=cm.BatteryRelayState[e["relay"]],
         component_state=cm.BatteryComponentState[e["state"]], errors=errors)
 
 
-def mk_inverter(e, now_us):
+def mk_inverter(e, now_us, cid=INVERTER_ID):
     cm = _imports()["cm"]
     nan = math.nan
     errors = [cm.InverterError(code=cm.InverterErrorCode.UNSPECIFIED, level=cm.ErrorLevel[l], message="") for l in e["errors"]]
     n3 = (nan, nan, nan)
     return cm.InverterData(
-        component_id=INVERTER_ID, timestamp=BASE + timedelta(microseconds=now_us - e["age"] * 1000),
+        component_id=cid, timestamp=BASE + timedelta(microseconds=now_us - e["age"] * 1000),
         active_power=nan, active_power_per_phase=n3, reactive_power=nan, reactive_power_per_phase=n3,
         current_per_phase=n3, voltage_per_phase=n3, active_power_inclusion_lower_bound=nan,
         active_power_exclusion_lower_bound=nan, active_power_inclusion_upper_bound=nan,
@@ -988,4 +988,383 @@ class PoolStream(Stream):
                 out.append("query_working")
             else:
                 out.append("query_empty")
+        return out
+
+
+# ============================================================================= end-to-end stream
+# The real ComponentPoolStatusTracker creates the real BatteryStatusTrackers (as the battery
+# manager does): constructor wiring pool -> tracker (max_data_age, max_blocking_duration, the
+# per-tracker receiver of the shared set-power-result channel, the per-tracker status channel
+# merged into the pool status) is exercised.  Every expectation is computed from the values
+# GIVEN TO THE POOL.
+E2E_HEADER = """From Verif Require Import model.BatteryStatus.
+Open Scope string_scope.
+Open Scope Z_scope.
+Fixpoint notifs_upto (t id : Z) (tr : trace) (os : list (option status)) : list (Z * status) :=
+  match tr, os with
+  | (now, _) :: tr', o :: os' =>
+      match o with
+      | Some s => if now <=? t then (id, s) :: notifs_upto t id tr' os' else notifs_upto t id tr' os'
+      | None => notifs_upto t id tr' os'
+      end
+  | _, _ => []
+  end.
+(* case: (max_data_age, max_blocking_duration) given to the POOL, initial last_msg_timestamp,
+   per battery (id, recorded boundary events, notification sent while handling each),
+   pool status in force after each instant (t, working, uncertain), final queries *)
+Definition case_t : Type :=
+  ((Z * Z) * Z * list (Z * list (Z * event) * list (option Z)) * list (Z * list Z * list Z)
+   * list (list Z * list Z))%type.
+Definition check (c : case_t) : bool :=
+  let '(cf, ts0, bats, snaps, qs) := c in
+  let cfg := mkC (fst cf) min_blocking_duration_us (snd cf) in
+  let outs := fun tr => outputs cfg (init cfg ts0) tr in
+  forallb (fun b => let '(id, tr, exp) := b in list_eqb optZ_eqb (out_codes (outs tr)) exp) bats &&
+  let pool_at := fun t => pool_run pool_init
+                   (flat_map (fun b => let '(id, tr, _) := b in notifs_upto t id tr (outs tr)) bats) in
+  forallb (fun sn => let '(t, w, u) := sn in
+             listZ_eqb (sort_z (p_working (pool_at t))) w && listZ_eqb (sort_z (p_uncertain (pool_at t))) u) snaps &&
+  forallb (fun q => listZ_eqb (sort_z (get_working_components (pool_at 4000000000000000) (fst q))) (snd q)) qs.
+"""
+
+
+def sub_case(case, bid):
+    """The history of one battery as a single-tracker case (indices = positions in this list)."""
+    ev = []
+    for e in case["events"]:
+        if e["t"] in ("bat", "inv") and e["b"] == bid:
+            ev.append({k: v for k, v in e.items() if k != "b"})
+        elif e["t"] == "sp":
+            ev.append({"t": "sp", "gap": e["gap"], "succ": bid in e["succ"], "fail": bid in e["fail"]})
+    return {"cfg": case["cfg"], "events": ev, "tail": case.get("tail", 0)}
+
+
+def run_e2e(case):
+    I = _imports()
+    Receiver = I["Receiver"]
+    codes = {I["Enum"].NOT_WORKING: 0, I["Enum"].UNCERTAIN: 1, I["Enum"].WORKING: 2}
+    bats = case["bats"]
+    inv_of = {b: b - 1 for b in bats}
+    logs = {b: [] for b in bats}
+    index_of = {b: {} for b in bats}
+    sent_at = {b: [] for b in bats}
+    pool_log = []
+
+    async def drive(loop):
+        class Rec(Receiver):
+            def __init__(self, inner, kind, log, idx=None):
+                self.inner, self.kind, self.log, self.idx = inner, kind, log, idx
+
+            async def ready(self):
+                return await self.inner.ready()
+
+            def consume(self):
+                i = None
+                try:
+                    msg = self.inner.consume()
+                    if self.idx is not None:
+                        i = self.idx.get(id(msg))
+                    return msg
+                finally:
+                    self.log.append([self.kind, _now_us(loop), i, None])
+
+            def reset(self, **kw):
+                return self.inner.reset(**kw)
+
+            def close(self):
+                self.inner.close()
+
+        class Forward:
+            """Records the notification, then hands it to the sender the pool created."""
+
+            def __init__(self, inner, bid):
+                self.inner, self.bid = inner, bid
+
+            async def send(self, msg):
+                log = logs[self.bid]
+                assert msg.component_id == self.bid, "tracker notifies under a foreign component id"
+                assert log and log[-1][3] is None
+                log[-1][3] = codes[msg.value]
+                await self.inner.send(msg)
+
+        chans = {}
+        rx = {}
+        for b in bats:
+            chans[("bat", b)] = I["Broadcast"](name=f"bat{b}")
+            chans[("inv", b)] = I["Broadcast"](name=f"inv{b}")
+            rx[("bat", b)] = Rec(chans[("bat", b)].new_receiver(limit=500), "bat", logs[b], index_of[b])
+            rx[("inv", b)] = Rec(chans[("inv", b)].new_receiver(limit=500), "inv", logs[b], index_of[b])
+
+        async def battery_data(cid):
+            return rx[("bat", cid)]
+
+        async def inverter_data(cid):
+            return rx[("inv", {v: k for k, v in inv_of.items()}[cid])]
+
+        graph = SimpleNamespace(predecessors=lambda bid: [
+            SimpleNamespace(component_id=bid + 1000, category=I["cm"].ComponentCategory.METER),
+            SimpleNamespace(component_id=inv_of[bid], category=I["cm"].ComponentCategory.INVERTER)])
+        cmgr = I["connection_manager"]
+        saved = cmgr._CONNECTION_MANAGER  # pylint: disable=protected-access
+        cmgr._CONNECTION_MANAGER = SimpleNamespace(component_graph=graph, api_client=SimpleNamespace(battery_data=battery_data, inverter_data=inverter_data))
+        try:
+            pool_ch = I["Broadcast"](name="pool")
+            pool_rx = pool_ch.new_receiver(limit=2000)
+            pt = I["PoolTracker"](component_ids=set(bats), component_status_sender=pool_ch.new_sender(),
+                                  max_data_age=timedelta(milliseconds=case["cfg"]["max_age"]),
+                                  max_blocking_duration=timedelta(milliseconds=case["cfg"]["dmax"]),
+                                  component_status_tracker_type=I["Tracker"])
+            # probes, installed before the pool's task (which starts the trackers) has run
+            trackers = {t.battery_id: t for t in pt._component_status_trackers}  # pylint: disable=protected-access
+            assert sorted(trackers) == sorted(bats)
+            ts0 = None
+            for b, t in trackers.items():
+                ts0 = t._battery.last_msg_timestamp  # pylint: disable=protected-access
+                t._battery.data_recv_timer = Rec(t._battery.data_recv_timer, "bt", logs[b])  # pylint: disable=protected-access
+                t._inverter.data_recv_timer = Rec(t._inverter.data_recv_timer, "it", logs[b])  # pylint: disable=protected-access
+                t._set_power_result_receiver = Rec(t._set_power_result_receiver, "sp", logs[b], index_of[b])  # pylint: disable=protected-access
+                t._status_sender = Forward(t._status_sender, b)  # pylint: disable=protected-access
+
+            async def watch_pool():
+                async for st in pool_rx:
+                    pool_log.append([_now_us(loop), sorted(st.working), sorted(st.uncertain)])
+            watcher = asyncio.create_task(watch_pool())
+            tx = {k: ch.new_sender() for k, ch in chans.items()}
+            keep = []
+            n_stim = {b: 0 for b in bats}
+            for e in case["events"]:
+                await asyncio.sleep(e["gap"] / 1000)
+                now = _now_us(loop)
+                if e["t"] in ("bat", "inv"):
+                    b = e["b"]
+                    m = mk_battery(e, now, b) if e["t"] == "bat" else mk_inverter(e, now, inv_of[b])
+                    keep.append(m)
+                    index_of[b][id(m)] = len(sent_at[b])
+                    sent_at[b].append(now)
+                    n_stim[b] += 1
+                    await tx[(e["t"], b)].send(m)
+                elif e["t"] == "sp":
+                    succ, fail = set(e["succ"]), set(e["fail"])
+                    # the Broadcast hands the same object to every tracker: index it per battery
+                    sender = pt._set_power_result_sender  # pylint: disable=protected-access
+                    m = I["SetPowerResult"](succeeded=succ, failed=fail)
+                    keep.append(m)
+                    for b in bats:
+                        index_of[b][id(m)] = len(sent_at[b])
+                        sent_at[b].append(now)
+                        n_stim[b] += 1
+                    if e.get("via", "api") == "api":
+                        # the public entry point builds its own message: remember it by interception
+                        orig = sender.send
+
+                        async def send(msg, _orig=orig):
+                            keep.append(msg)
+                            for bb in bats:
+                                index_of[bb][id(msg)] = index_of[bb][id(m)]
+                            await _orig(msg)
+                        sender.send = send
+                        try:
+                            await pt.update_status(succ, fail)
+                        finally:
+                            del sender.send
+                    else:
+                        await sender.send(m)
+            await asyncio.sleep(case.get("tail", 0) / 1000)
+            for it in range(1500):
+                await asyncio.sleep(0)
+                if it >= 20 and all(sum(1 for x in logs[b] if x[0] in ("bat", "inv", "sp")) == n_stim[b] for b in bats) \
+                        and len(pool_log) == sum(1 for b in bats for x in logs[b] if x[3] is not None):
+                    break
+            end = _now_us(loop)
+            queries = [sorted(pt.get_working_components(set(q))) for q in case["queries"]]
+            watcher.cancel()
+            await pt.stop()
+            ts0_us = (ts0 - BASE) // timedelta(microseconds=1)
+            return {"per": {str(b): {"log": [list(x) for x in logs[b]], "sent_at": sent_at[b], "end": end, "ts0": ts0_us} for b in bats},
+                    "pool": pool_log, "queries": queries, "end": end, "ts0": ts0_us}
+        finally:
+            cmgr._CONNECTION_MANAGER = saved  # pylint: disable=protected-access
+
+    return run_virtual(drive)
+
+
+def snapshots_by_instant(obs):
+    last = {}
+    for t, w, u in obs["pool"]:
+        last[t] = [w, u]
+    return [[t, w, u] for t, (w, u) in sorted(last.items())]
+
+
+def judge_e2e(case, obs):
+    out = []
+    n_notes = 0
+    notes = []   # (time, battery, status)
+    for b in case["bats"]:
+        sc, so = sub_case(case, b), obs["per"][str(b)]
+        for v in judge_tracker(sc, so):
+            out.append({"what": v["what"].split(":")[0] + f": [battery {b} of a pool created with max_data_age={case['cfg']['max_age']} ms, "
+                                f"max_blocking_duration={case['cfg']['dmax']} ms]" + v["what"].split(":", 1)[1], "finding": None})
+        for kind, now, idx, sent in so["log"]:
+            if sent is not None:
+                notes.append((now, b, sent))
+                n_notes += 1
+    if len(obs["pool"]) != n_notes:
+        out.append({"what": f"pool: {n_notes} tracker notifications but {len(obs['pool'])} pool status messages", "finding": None})
+    for t, w, u in snapshots_by_instant(obs):
+        latest = {}
+        for now, b, s in sorted(notes, key=lambda x: x[0]):   # stable: per battery in log order
+            if now <= t:
+                latest[b] = s
+        ww = sorted(b for b, s in latest.items() if s == 2)
+        uu = sorted(b for b, s in latest.items() if s == 1)
+        if (ww, uu) != (w, u):
+            out.append({"what": f"pool: at t={t} us the pool reports working={w} uncertain={u}; the trackers' latest notifications give {ww}/{uu}", "finding": None})
+            break
+    latest = {}
+    for now, b, s in sorted(notes, key=lambda x: x[0]):
+        latest[b] = s
+    for q, res in zip(case["queries"], obs["queries"]):
+        working = sorted(c for c in q if latest.get(c) == 2)
+        uncertain = sorted(c for c in q if latest.get(c) == 1)
+        want = working if working else uncertain
+        if res != want:
+            out.append({"what": f"pool: get_working_components({q}) = {res}; latest statuses {sorted(latest.items())} require {want}", "finding": None})
+    return out
+
+
+def e2e_term(case, obs):
+    bats = []
+    for b in case["bats"]:
+        sc, so = sub_case(case, b), obs["per"][str(b)]
+        tr = "[" + "; ".join(c_event(sc, x, so) for x in so["log"]) + "]"
+        exp = clist([x[3] for x in so["log"]], copt)
+        bats.append(f"({cZ(b)}, {tr}, {exp})")
+    snaps = "[" + "; ".join(f"({cZ(t)}, {clist(w)}, {clist(u)})" for t, w, u in snapshots_by_instant(obs)) + "]"
+    qs = "[" + "; ".join(f"({clist(q)}, {clist(r)})" for q, r in zip(case["queries"], obs["queries"])) + "]"
+    return (f"((({cZ(case['cfg']['max_age'] * 1000)}, {cZ(case['cfg']['dmax'] * 1000)}), {cZ(obs['ts0'])}, "
+            f"[{'; '.join(bats)}], {snaps}, {qs}) : case_t)")
+
+
+def _all_healthy(rng, bats, ma, gap):
+    ev = []
+    for b in bats:
+        ev.append({**gen_bat(rng, ma), "age": 0, "b": b, "gap": gap})
+        gap = 0
+        ev.append({**gen_inv(rng, ma), "age": 0, "b": b, "gap": 0})
+    return ev
+
+
+def gen_e2e_ladder(rng):
+    """Long failure ladder on one battery of a pool, healthy data for every battery throughout
+    (heartbeats well inside max_data_age), probes around each predicted deadline; max_data_age
+    and max_blocking_duration drawn independently and away from the defaults."""
+    ma = rng.choice([4000, 7000, 12000, 21000, 45000])
+    dmax = rng.choice([2000, 3000, 5000, 9000, 20000, 40000])
+    bats = rng.choice([[9, 19], [9, 19], [9, 19, 29], [9]])
+    target = rng.choice(bats)
+    others = [b for b in bats if b != target]
+    ev = _all_healthy(rng, bats, ma, 0)
+    hb = max(500, ma // 2 - 1)
+    k = 0
+    for _ in range(rng.randint(4, 7)):
+        k += 1
+        d = min(2 ** (k - 1) * DMIN_MS, dmax)
+        fail = [target] + ([rng.choice(others)] if others and rng.random() < 0.15 else [])
+        succ = [b for b in others if b not in fail and rng.random() < 0.5]
+        ev.append({"t": "sp", "succ": sorted(succ), "fail": sorted(fail), "gap": rng.choice([1, 1, 200]), "via": rng.choice(["api", "api", "raw"])})
+        offs = sorted(set([d] + rng.sample([d - 1, d + 1, (3 * d) // 4, d // 2 + 1], 2) + list(range(hb, d, hb))))
+        spent = 0
+        for off in offs:
+            if off <= spent:
+                continue
+            ev += _all_healthy(rng, bats, ma, off - spent)
+            spent = off
+        if rng.random() < 0.08:
+            ev.append({"t": "sp", "succ": [target], "fail": [], "gap": 1, "via": "api"})
+            k = 0
+    queries = [bats, [target], others, [b for b in bats if rng.random() < 0.5] + [77]]
+    return {"cfg": {"max_age": ma, "dmax": dmax}, "bats": bats, "events": ev, "tail": rng.choice([0, 1, ma + 1]), "queries": [sorted(q) for q in queries]}
+
+
+def gen_e2e_random(rng):
+    """A random single-tracker word spread over the batteries of a pool."""
+    while True:
+        c = gen_case(rng, 40)
+        if not c.get("send_delays"):
+            break
+    ma = c["cfg"]["max_age"]
+    bats = rng.choice([[9, 19], [9, 19, 29]])
+    ev = _all_healthy(rng, bats, ma, 0) if rng.random() < 0.6 else []
+    for e in c["events"]:
+        if e["t"] in ("bat", "inv"):
+            ev.append({**e, "b": rng.choice(bats)})
+        elif e["t"] == "sp":
+            fail = [b for b in bats if rng.random() < 0.4]
+            succ = [b for b in bats if rng.random() < 0.25]
+            ev.append({"t": "sp", "gap": e["gap"], "succ": succ, "fail": fail, "via": rng.choice(["api", "raw"])})
+        else:
+            ev.append(dict(e))
+    return {"cfg": {"max_age": ma, "dmax": rng.choice([2000, 5000, 9000, 40000])}, "bats": bats, "events": ev, "tail": c["tail"],
+            "queries": [bats, bats[:1], bats[1:] + [77]]}
+
+
+class E2EStream(Stream):
+    name = "e2e"
+    coq_header = E2E_HEADER
+
+    def gen(self, rng, tier):
+        n = 120 if tier == "quick" else 2500
+        for i in range(n):
+            yield gen_e2e_ladder(rng) if i % 3 != 2 else gen_e2e_random(rng)
+
+    def run_impl(self, case):
+        return run_e2e(case)
+
+    def to_coq(self, case, obs):
+        return e2e_term(case, obs)
+
+    def oracle(self, case, obs):
+        return judge_e2e(case, obs)
+
+    def shrink(self, case):
+        ev = case["events"]
+        if len(case["bats"]) > 1:
+            for b in case["bats"]:
+                keep = [x for x in case["bats"] if x != b]
+                evs = []
+                carry = 0
+                for e in ev:
+                    if e["t"] in ("bat", "inv") and e["b"] == b:
+                        carry += e["gap"]
+                        continue
+                    e2 = {**e, "gap": e["gap"] + carry}
+                    carry = 0
+                    if e["t"] == "sp":
+                        e2["succ"] = [x for x in e["succ"] if x != b]
+                        e2["fail"] = [x for x in e["fail"] if x != b]
+                    evs.append(e2)
+                yield {**case, "bats": keep, "events": evs, "queries": [[x for x in q if x != b] for q in case["queries"]]}
+        for i in range(len(ev) - 1, -1, -1):     # drop from the end first: ladders shrink to their shortest failing prefix
+            if i + 1 < len(ev):
+                yield {**case, "events": ev[:i] + [{**ev[i + 1], "gap": ev[i + 1]["gap"] + ev[i]["gap"]}] + ev[i + 2:]}
+            else:
+                yield {**case, "events": ev[:i]}
+        if case.get("tail"):
+            yield {**case, "tail": 0}
+
+    def key(self, case, obs):
+        if not obs["pool"]:
+            return None
+        return json.dumps([case["cfg"], case["bats"], [[k, v["log"]] for k, v in sorted(obs["per"].items())]], sort_keys=True)
+
+    def labels(self, case, obs):
+        out = [f"batteries={len(case['bats'])}", "dmax_lt_max_age" if case["cfg"]["dmax"] < case["cfg"]["max_age"] else
+               "dmax_gt_max_age" if case["cfg"]["dmax"] > case["cfg"]["max_age"] else "dmax_eq_max_age"]
+        for b in case["bats"]:
+            stats = {}
+            judge_tracker(sub_case(case, b), obs["per"][str(b)], stats)
+            out.append(f"backoff_depth={min(stats['max_k'], 7)}")
+        if any(e["t"] == "sp" and len(e["fail"]) and len(e["fail"]) < len(case["bats"]) for e in case["events"]):
+            out.append("failure_for_some_batteries_only")
+        out.append(f"pool_messages={min(40, len(obs['pool']) // 10 * 10)}+")
         return out
